@@ -15,6 +15,8 @@ import z3
 from symx.core import Inconclusive
 from symx.harness import conn_from_cex, pin, py_path, sym_connection_list, stubs_description
 
+from props import alias_common as _alias
+
 ID = "C02"
 
 
@@ -97,6 +99,7 @@ def jobs(tier, seed):
             if tier != "quick" and r * c == 9:
                 q_ = q_[:2]  # on 9 cells two queries per history (four queries walk through nearly all 4096 mazes per instance)
             out.append(dict(h="astar_seq", r=r, c=c, queries=q_, max_seconds=3000))
+    out.append(dict(_alias.ALIAS_JOB))  # results must not alias library state, arguments or each other (props/alias_common.py)
     out[0]["twin"] = True
     return out
 
@@ -366,6 +369,7 @@ HARNESSES = {
     "solve_targeted": dict(run=_run_solve_targeted, replay=_replay, real_sig=_real_sig, pinned=_pinned),
     "astar_seq": dict(run=_run_astar_seq, replay=_replay_seq, real_sig=_real_sig_seq, pinned=_pinned),
 }
+HARNESSES["alias"] = _alias.alias_harness("C02")
 
 META = dict(
     functions=["LatticeMaze.find_shortest_path", "LatticeMaze.get_coord_neighbors", "LatticeMaze.nodes_connected",
@@ -383,3 +387,5 @@ META = dict(
                  "oracle: BFS-layer reachability formula over the same bits (symx/oracles.py)",
                  "shim element semantics (validated per run against real numpy on pinned inputs)"],
 )
+
+META.setdefault("degenerate", {})["alias"] = _alias.ALIAS_META
